@@ -359,6 +359,8 @@ func GetKeyAt(sortedKeys []string, size int64, pos int64, forward bool) string {
 
 // SearchData quiery the table based on the input
 func (t *Table) SearchData(input QueryInput) ([]map[string]*types.Item, map[string]*types.Item) {
+	t.checkExpressions(input)
+
 	items := []map[string]*types.Item{}
 	limit := input.Limit
 	exclusiveStartKey := input.ExclusiveStartKey
@@ -413,6 +415,30 @@ func (t *Table) SearchData(input QueryInput) ([]map[string]*types.Item, map[stri
 	}
 
 	return items, t.getLastKey(last, limit, count, scanned, sortedKeysSize, index)
+}
+
+// checkExpressions checks the syntax of the search expressions up front. They are evaluated once per
+// visited item, so without this a malformed expression would go unnoticed whenever no item is visited
+// (an empty table or partition). It aborts the same way interpreterMatch does.
+func (t *Table) checkExpressions(input QueryInput) {
+	if t.UseNativeInterpreter {
+		return
+	}
+
+	expressions := []string{input.KeyConditionExpression, input.FilterExpression}
+	if input.ConditionExpression != nil {
+		expressions = append(expressions, *input.ConditionExpression)
+	}
+
+	for _, expression := range expressions {
+		if expression == "" {
+			continue
+		}
+
+		if err := t.LangInterpreter.CheckSyntax(expression); err != nil {
+			panic(err)
+		}
+	}
 }
 
 func (t *Table) getLastKey(item map[string]*types.Item, limit, count, scanned, keysSize int64, index *index) map[string]*types.Item {
